@@ -33,6 +33,9 @@ def run_history(h, props=None):
                 return None
             if comp_kind == 'count':
                 return {'count': len(agents)}
+            if comp_kind == 'odict':
+                import collections
+                return collections.OrderedDict(count=len(agents))      # any mapping the caller hands back is data
             if comp_kind == 'same':
                 shared['n'] += 1
                 shared['total'] = shared['n']
@@ -73,7 +76,7 @@ def run_history(h, props=None):
                     for aid in m.environment.agents:
                         if vals.get(aid) is not None:
                             rec[aid] = vals[aid]
-                    if comp_kind == 'count':
+                    if comp_kind in ('count', 'odict'):
                         rec['count'] = len(m.environment.agents)
                     elif comp_kind == 'same':
                         rec['n'] = shared['n']
@@ -154,7 +157,7 @@ def run_history(h, props=None):
 def histories(seed, budget, prop='C17'):
     rng = random.Random(seed)
     for incl in (False, True):
-        for comp in ('nofunc', 'none', 'count', 'same', 'empty'):
+        for comp in ('nofunc', 'none', 'count', 'same', 'empty', 'odict'):
             yield ('agent', incl, comp, (0, None, 1),
                    [('step',), ('join', 'a', 1), ('step',), ('join', 'b', None), ('step',), ('set', 'b', 5), ('step',),
                     ('leave', 'a'), ('step',), ('set', 'b', None), ('step',), ('step',), ('join', 'a', 0), ('step',)])
@@ -183,5 +186,5 @@ def histories(seed, budget, prop='C17'):
                     ops.append(('set', rng.choice('abc'), rng.choice([None, 2, 3])))
                 else:
                     ops.append(('step',))
-            yield ('agent', rng.random() < 0.5, rng.choice(['nofunc', 'none', 'count', 'same', 'empty']),
+            yield ('agent', rng.random() < 0.5, rng.choice(['nofunc', 'none', 'count', 'same', 'empty', 'odict']),
                    (rng.randint(-1, 3), rng.choice([None, None, rng.randint(0, 8)]), rng.randint(1, 3)), ops)
